@@ -131,7 +131,7 @@ static int new_packet(int sk_fd, int can_socket) {
     int res = 0;
     uint64_t proc_bytes = 0, msg_proc_bytes = 0;
     uint32_t udp_seq_num;
-    uint16_t msg_length, can_payload_length, acf_msg_length;
+    uint16_t msg_length, can_payload_length, acf_msg_length, max_payload_length;
     uint8_t subtype;
     uint8_t pdu[MAX_PDU_SIZE], i;
     uint8_t *cf_pdu, *acf_pdu, *udp_pdu, *can_payload;
@@ -146,12 +146,19 @@ static int new_packet(int sk_fd, int can_socket) {
     }
 
     if (use_udp) {
+        if (res < AVTP_UDP_HEADER_LEN) {
+            return 0;
+        }
         udp_pdu = pdu;
         udp_seq_num = Avtp_Udp_GetEncapsulationSeqNo((Avtp_Udp_t *)udp_pdu);
         cf_pdu = pdu + AVTP_UDP_HEADER_LEN;
         proc_bytes += AVTP_UDP_HEADER_LEN;
     } else {
         cf_pdu = pdu;
+    }
+
+    if (res < proc_bytes + AVTP_COMMON_HEADER_LEN) {
+        return 0;
     }
 
     subtype = Avtp_CommonHeader_GetSubtype((Avtp_CommonHeader_t*)cf_pdu);
@@ -162,13 +169,30 @@ static int new_packet(int sk_fd, int can_socket) {
 
     if (subtype == AVTP_SUBTYPE_TSCF){
         proc_bytes += AVTP_TSCF_HEADER_LEN;
+        if (res < proc_bytes) {
+            return 0;
+        }
         msg_length = Avtp_Tscf_GetStreamDataLength((Avtp_Tscf_t*)cf_pdu);
     } else {
         proc_bytes += AVTP_NTSCF_HEADER_LEN;
+        if (res < proc_bytes) {
+            return 0;
+        }
         msg_length = Avtp_Ntscf_GetNtscfDataLength((Avtp_Ntscf_t*)cf_pdu);
     }
 
+    // The ACF messages must lie inside the received datagram
+    if (msg_length > res - proc_bytes) {
+        fprintf(stderr, "Error: control format length exceeds the received datagram.\n");
+        return 0;
+    }
+
     while (msg_proc_bytes < msg_length) {
+
+        // An ACF CAN message consists of at least its header
+        if (msg_length - msg_proc_bytes < AVTP_CAN_HEADER_LEN) {
+            return 0;
+        }
 
         acf_pdu = &pdu[proc_bytes + msg_proc_bytes];
 
@@ -180,7 +204,21 @@ static int new_packet(int sk_fd, int can_socket) {
 
         can_payload = Avtp_Can_GetPayload((Avtp_Can_t*)acf_pdu);
         acf_msg_length = Avtp_Can_GetAcfMsgLength((Avtp_Can_t*)acf_pdu)*4;
+
+        // The message must hold its header, fit into the rest of the control
+        // format payload and its payload must fit into a CAN frame
+        max_payload_length = (can_variant == AVTP_CAN_FD) ? CANFD_MAX_DLEN : CAN_MAX_DLEN;
+        if (acf_msg_length < AVTP_CAN_HEADER_LEN ||
+            acf_msg_length > msg_length - msg_proc_bytes ||
+            acf_msg_length > AVTP_CAN_HEADER_LEN + max_payload_length + 3) {
+            fprintf(stderr, "Error: invalid ACF message length.\n");
+            return 0;
+        }
         can_payload_length = Avtp_Can_GetCanPayloadLength((Avtp_Can_t*)acf_pdu);
+        if (can_payload_length > max_payload_length) {
+            fprintf(stderr, "Error: CAN payload does not fit into a CAN frame.\n");
+            return 0;
+        }
         msg_proc_bytes += acf_msg_length;
 
         // Handle EFF Flag
